@@ -28,6 +28,8 @@ CONFIGS = [
     "deny rm *\nallow cat /tmp/probe/ok.txt\ndeny cat /etc/shadow \"secret\"\nallow foo\nalias g git\ndeny git push *\nallow-redirect /tmp/probe/out/**\n",
     "allow ./run.sh\ndeny ~/bin/tool *\nask curl *\nallow-redirect **\ndeny denied\nalias ll ls\n",
     "",
+    # blanks and tabs inside the pattern: a rule is a sequence of words, however they are spaced in the file
+    "deny git  log\nask git\tpush  *\ndeny   rm   -rf  *\nallow  foo\ndeny denied\n",
 ]
 EXEC_FORMS = [
     "docker exec c1 {i}", "docker exec -it c1 {i}", "docker exec -e A=1 -u root c1 {i}", "docker exec -- c1 {i}", "docker exec -itw /srv c1 {i}", "docker exec --env=A=1 --privileged c1 {i}",
